@@ -10,7 +10,8 @@ WIT = {'ST': 'x', 'ID': 'A', 'IS': 'A', 'NM': '1', 'SI': '1', 'DT': '20200101', 
        'varies': 'x'}
 
 TYPED = {
-    'NM': ['0', '1', '-1', '12.5', '-0.25', '100', '3.14159', '42', '0.5', '1000000'],
+    'NM': ['0', '1', '-1', '12.5', '-0.25', '100', '3.14159', '42', '0.5', '1000000', '0.0000001', '-0.00000025',
+           '10.50', '1.0', '0.000010', '12345678901234.5'],
     'SI': ['0', '1', '2', '17', '999', '9999'],
     'DT': ['2020', '202002', '20200229', '19991231', '1000', '99991231', '20240101'],
     'DTM': ['2020', '202002', '20200229', '2020022913', '202002291359', '20200229135901', '20200229135901.1',
@@ -138,3 +139,25 @@ def field_value(rng, version, row, ec, toks=None, max_reps=3, allow_escapes=True
     maxrep = row.card[1] if row.card and row.card[1] not in (-1, 0) else max_reps
     n = rng.randint(1, max(1, min(max_reps, maxrep))) if rng.random() < 0.4 else 1
     return ec['REPETITION'].join(rep_text() for _ in range(n))
+
+
+def usable_rows(version, seg):
+    rows = tables.segments(version).get(seg) or []
+    return [r for r in rows if r.ok and r.card[1] != 0 and not (seg == 'MSH' and r.num in (1, 2))]
+
+
+def segment_line(rng, version, seg, ec, toks=None, max_fields=5, allow_escapes=True, rows=None):
+    """canonical ER7 line for a segment: a random subset of its defined, non-withdrawn fields populated with
+    shapes their datatypes permit.  -> (text, [row names populated])"""
+    rows = usable_rows(version, seg) if rows is None else rows
+    if not rows:
+        return seg, []
+    k = rng.randint(1, min(max_fields, len(rows)))
+    chosen = sorted(rng.sample(rows, k), key=lambda r: r.num)
+    vals = {r.num: field_value(rng, version, r, ec, toks, allow_escapes=allow_escapes) for r in chosen}
+    top = max(vals)
+    f = ec['FIELD']
+    if seg == 'MSH':
+        body = f.join(vals.get(i, '') for i in range(3, top + 1))
+        return 'MSH' + f + msh2(ec) + (f + body if body else ''), [r.name for r in chosen]
+    return f.join([seg] + [vals.get(i, '') for i in range(1, top + 1)]), [r.name for r in chosen]
